@@ -52,10 +52,8 @@ theorem C20_castf_value (abi : Abi) (to : FloatTy) (fr : BaseTy) (v : Int) :
   ⟨rfl, fun _ => rfl⟩
 
 /-- what "the C++ cast" is: integers that fit the significand are unchanged ... -/
-theorem C20_castf_exact (f : FloatTy) (v : Int) (h : v.natAbs < 2 ^ f.prec) : intToFloat f v = v := by
-  unfold intToFloat
-  rw [CastLemmas.roundSig_exact _ _ h]
-  split <;> omega
+theorem C20_castf_exact (f : FloatTy) (v : Int) (h : v.natAbs < 2 ^ f.prec) : intToFloat f v = v :=
+  CastLemmas.intToFloat_exact f v h
 
 /-- ... and any other integer becomes a neighbouring multiple of the unit in the last place `2^sh`, at most
 half a unit away (round to nearest; `roundSig` resolves ties to the even significand) -/
